@@ -70,6 +70,8 @@ var Inl = []string{
 	"[t][r]", "[r]", "[r][]", "[t\nu]", "[a", "b]", "[a\nb]: /u", "![i](/s)", "![i", "j](/s)", "<a href=\"x\">", "<a\n href='y'>", "<a", "b>", "<!-- c", "d -->", "<?p", "q?>", "<![CDATA[x", "y]]>",
 	"<http://x.y>", "&amp;", "\\*", "\\", "  ", " ", "!", "[", "]", "(", ")", "<", ">", "#", "=", "-", "é", "\x00", "1.", "x\\", "***a", "a***", "_", "__",
 	"</b>", "<b>", "[t](/u\\", "&#x2d;", "![\"x](y)", "[r][a\nb]", "\\é", "##", " #",
+	"[![[x](/y)](/z)](/w)", "[![", "![[", "](/z)", "[a ![b [c](/d) e](/f) g](/h)", "![a [b](/c)](/d)", "[![i](/s)](/u)", "[[x](/y)](/z)", "[r]: /u", "![foo][]", "![r]", "![r][r]",
+	"<DIV>", "<XMP>", "<B>", "</DIV>", "<Script>",
 }
 
 // Starts are the G2 block openers.
@@ -150,6 +152,7 @@ var Extra = []string{
 	"![\" onerror=\"alert(1)](x)", "![&#x2d;](/u)", "![](/u)", "[x](%GG)", "&#xG;", "&notit;", "    a\n    ", "> [r]: /u\n> =",
 	"x*_*_*a*ax", "**_**_a_", "*\fa*", "<!--> <script>", "<![CDATA[ > <script>", "<div>\n<3 <script>", "[ foo]: /u\n\n[foo]",
 	"> a *b\n> c* d", "\\+ a", "1\\. a", "a\\![b](/u)", "[x](/u \"a\\\"b\")", "\\é", "+ [t](</u>'ti\n   tle')", ">[a\n>b]: /u\\\n>x",
+	"[![[x](y)](z)](w)", "<DIV>\n<XMP>", "<XMP>\n<DIV>\n", "  > q", ">  > q", "[r]: /u\n\n![r][]",
 	"1. a\n\n   b\n2. c", "- a\n  - b\n\n    c\n- d", "```\n`` `\n```", "~~~ a`b\nx\n~~~", "<pre>\n\nx</pre>\ny", "a\n===\nb\n---", "[r]: /u\n1.\n---",
 	"\x00", "a\x00\x00b\r\n\r\n\x00", "\tfoo\n\n\tbar", "-\tfoo\n\n\tbar", ">\t\tfoo", "- a\n\n\n  b", "*  *  *", "1) a\n2. b", "<a href=\"x\ny\">",
 }
